@@ -170,6 +170,20 @@ pub fn hostport_parse(text: &str) -> Result<String, String> {
     .map_err(|e| e.to_string())
 }
 
+/// `url::Host::parse` exactly as `HostPort` calls it (after the UTF-8 check that
+/// `&str` / `String` imply), with the parts of the result: kind, numeric address,
+/// the `std` text that `HostPort`'s tuple encoding stores, and `Host`'s `Display`.
+pub fn host_parse(bytes: &[u8]) -> Result<(char, u128, String, String), String> {
+  let text = std::str::from_utf8(bytes).map_err(|e| e.to_string())?;
+  let host = Host::parse(text).map_err(|e| e.to_string())?;
+  let shown = host.to_string();
+  Ok(match host {
+    Host::Domain(domain) => ('d', 0, domain, shown),
+    Host::Ipv4(address) => ('4', u32::from(address).into(), address.to_string(), shown),
+    Host::Ipv6(address) => ('6', u128::from(address), address.to_string(), shown),
+  })
+}
+
 pub fn hostport_to_bencode(text: &str) -> Result<Vec<u8>, String> {
   let hp = text.parse::<HostPort>().map_err(|e| e.to_string())?;
   bendy::serde::ser::to_bytes(&hp).map_err(|e| e.to_string())
